@@ -339,7 +339,7 @@ def tokens_of(text):
                 break
             if 0 <= a < b <= len(text) and (not out or a >= out[-1][1]):
                 out.append((a, b, tok.string, tok.type))
-    except (tokenize.TokenError, SyntaxError, IndentationError, ValueError):
+    except Exception:  # incl. SystemError for NUL bytes on 3.12
         pass
     if not out:
         for m in re.finditer(r"\S+", text):
